@@ -31,6 +31,9 @@ type C13Decl struct {
 type C13Case struct {
 	Text  string    `json:"text"`
 	Decls []C13Decl `json:"decls"`
+	// Shift: after didOpen the client inserts this many lines at the top without saving (didChange);
+	// hover is asked in the edited buffer
+	Shift int `json:"shift,omitempty"`
 }
 
 func init() { register("C13", checkC13) }
@@ -162,6 +165,9 @@ func genC13(t *rapid.T) C13Case {
 		b.WriteString(d.Name + ")\n")
 	}
 	c.Text = b.String()
+	if rapid.IntRange(0, 3).Draw(t, "unsavedEdit") == 0 {
+		c.Shift = rapid.IntRange(1, 3).Draw(t, "shiftLines")
+	}
 	return c
 }
 
@@ -171,9 +177,16 @@ func checkC13(c C13Case, env *Env) *Violation {
 	}
 	req := &proto.Request{Cmd: "session", Files: []proto.File{{Path: "main.lua", Data: []byte(c.Text)}}, InitOptions: harness.J(harness.Flags(1))}
 	req.Steps = []proto.Step{harness.DidOpen("main.lua", c.Text)}
+	cur, delta := c.Text, 0
+	if c.Shift > 0 {
+		pre := strings.Repeat("local pad = 0 -- padding\n", c.Shift)
+		cur, delta = pre+c.Text, len(pre)
+		req.Steps = append(req.Steps, harness.DidChangeFull("main.lua", 2, cur))
+		env.Stats.Class("hover-in-unsaved-buffer")
+	}
 	first := len(req.Steps)
 	for _, d := range c.Decls {
-		l, ch := refmodel.PosOf(c.Text, d.UseOff)
+		l, ch := refmodel.PosOf(cur, d.UseOff+delta)
 		req.Steps = append(req.Steps, harness.Call("textDocument/hover", harness.TDPos("main.lua", l, ch)))
 	}
 	o := env.Exec(req)
